@@ -2,16 +2,11 @@ import verif  # noqa: F401
 from checks import fc_common
 
 MANIFEST = dict(
-    text="Coq: executable Impl model of ProtoArray/ProtoVoteStore/ProtoForkChoice (as repaired by fixes/C09-*, C10-*, C10-*.diff) and a Spec "
-         "that says which justified/finalized updates are no-ops, refused or applied, which nodes a prune drops, and what the sink is told. Theorems (coq/Properties/C10.v) "
-         "are about all histories; what is not yet proved for all histories is stated as C10_full and covered by _partial theorems. "
-         "Tie to /repo: random and directed operation histories (forks, gap slots, late/duplicate blocks, double proposals, prunes) are run on the "
-         "real Go code; every UpdateJustified/SetPin result, every sink call and every query after a prune is compared with the Impl model and, independently, with the Spec; every call runs under a deadline (a blocked call is reported).",
-    note="Trusted: Coq kernel+VM, harness/driver, the hand-written model (tied by execution), the Spec reading of zrnt's block/slot graph. "
-         "Known finding prune_keeps_late_fork (nodes inserted after the new finalized node on other branches survive a prune) is reported as KNOWN-FINDING.",
-    technique="Coq proof (invariants over operation histories) + Go-vs-model-vs-spec differential correspondence on operation histories",
-    design="4/C09-C10")
+    text='PARTIAL proof + correspondence. Coq: Impl model (mutex as a flag: re-acquiring = Blocked; prune sink as a parameter that may fail at its k-th call) and a Spec of updates (no-op / refused / applied, exact prune, canonical flags). Proved for ALL histories, states, arguments and sinks: no call ever blocks and the lock is free between calls (update_returns, blocking half); older-or-equal pairs change nothing; a finalized checkpoint outside the finalized subtree is refused leaving the state untouched; what a prune removes is a prefix of the node table = exactly what the sink acknowledged, each node once, in order, the refused node stays; at Spec level prune_exact and head_in_finalized_subtree. Not proved (C10_update_refines): never-Panic, canonical flags, retained_queries_unchanged. Tie to /repo on every run: UpdateJustified ahead/equal/behind/unknown/conflicting at block and gap-slot anchors, SetPin, failing sinks, every call under a deadline (a blocked call is observed as such), every query after a prune compared with Impl and Spec.',
+    note="Trusted: Coq kernel+VM, harness/driver, the hand-written Impl model (tied to /repo by differential execution of histories: values, sink calls, private-state checksum through verif_hooks.go), the Spec (my reading of the property on zrnt's block/slot graph, design/C09-C11.md). No axioms (Print Assumptions: closed). PARTIAL: the refinement Impl=Spec over all histories (Cxx_full / *_refine(s) in coq/Properties) is not proved in full; the part not proved rests on the correspondence runs. Known finding prune_keeps_late_fork (OnPrune drops a prefix of the node table only) is reported as KNOWN-FINDING. The model describes /repo with fixes/SERIES-forkchoice applied; on the unpatched tree the check reports VIOLATIONs with the failing history.",
+    technique="Coq proof (simulation/invariants over operation histories, partial) + Go-vs-Impl-vs-Spec differential correspondence on operation histories",
+    design="4/C09-C11")
 
 
 def make_check():
-    return fc_common.make("C10")
+    return fc_common.make('C10')
